@@ -73,6 +73,8 @@ def units(tier):
         sizes = (1, 2, 4, 8) if q else (1, 2, 4, 8, 16)
         if fam in KNOWN_EXP:
             sizes = (1, 2, 4)
+        elif fam.endswith("_nest"):
+            sizes = (1, 2, 4, 8)      # deeper expression nests hit Python's recursion limit natively (see C06 finding)
         for n in sizes:
             for std in ("f2003", "f2008"):
                 us.append(dict(h="grow", fam=fam, n=n, std=std, sym=("labels" if fam in ("do_label", "do_shared", "repeat_nonblock", "repeat_nonblock_comments", "do_nonblock") else "name"), cost=n))
